@@ -414,10 +414,14 @@ pub fn explore_alphabet(w: &World, r: usize, cfg: &L1Cfg, alpha: Vec<(String, In
                 if cfg.crashes && accepted {
                     for at in 0..n_writes {
                         for applied in [false, true] {
-                            let pol = Policy { crash: Some(Crash { at, applied }), sync: sync_pool.clone() };
+                            let pol = Policy { crash: Some(Crash { at, applied, fail: false }), sync: sync_pool.clone() };
                             let out = bftsim::step(w, r, &node.local, input, &pol);
                             handle(&mut e, format!("{desc} -- CRASH at durable write #{at} ({})", if applied { "write applied" } else { "write lost" }), InputKind::Step(input.clone(), pol), out);
                         }
+                        // the write fails with an I/O error instead (the process is not killed)
+                        let pol = Policy { crash: Some(Crash { at, applied: false, fail: true }), sync: sync_pool.clone() };
+                        let out = bftsim::step(w, r, &node.local, input, &pol);
+                        handle(&mut e, format!("{desc} -- WRITE ERROR at durable write #{at}"), InputKind::Step(input.clone(), pol), out);
                     }
                 }
             }
@@ -534,13 +538,15 @@ pub fn replay_path_with(w: &World, r: usize, cfg: &L1Cfg, path: &[String], check
             local = bftsim::real_restart(w, r, &local);
             continue;
         }
-        let (base, crash) = match d.split_once(" -- CRASH at durable write #") {
+        let (base, crash) = if let Some((b, rest)) = d.split_once(" -- WRITE ERROR at durable write #") {
+            (b.to_string(), Some(Crash { at: rest.trim().parse().unwrap_or(0), applied: false, fail: true }))
+        } else { match d.split_once(" -- CRASH at durable write #") {
             Some((b, rest)) => {
                 let at: usize = rest.split(' ').next().unwrap_or("0").parse().map_err(|_| format!("bad crash spec in '{d}'"))?;
-                (b.to_string(), Some(Crash { at, applied: rest.contains("applied") }))
+                (b.to_string(), Some(Crash { at, applied: rest.contains("applied"), fail: false }))
             }
             None => (d.clone(), None),
-        };
+        } };
         let alpha_n;
         let found = match alpha.iter().find(|(n, _)| *n == base) {
             Some(x) => x,
@@ -574,4 +580,15 @@ pub fn replay_path_with(w: &World, r: usize, cfg: &L1Cfg, path: &[String], check
         local = out.local;
     }
     Ok(None)
+}
+
+/// The persistence-focused alphabet: what makes the replica write durable state and sign votes
+/// (proposals and new-views of the minimal alphabet, the timer) - few inputs, so that crash points,
+/// write errors and restarts can be chained five or six steps deep.
+pub fn persistence_alphabet(w: &World, r: usize, cfg: &L1Cfg) -> Vec<(String, Input)> {
+    let narrow = L1Cfg { narrow: true, full: false, max_view: cfg.max_view, crashes: cfg.crashes, flood: false, max_states: cfg.max_states, deadline: cfg.deadline, seed: cfg.seed };
+    alphabet(w, r, &narrow)
+        .into_iter()
+        .filter(|(d, _)| (d.starts_with("proposal[") && d.contains("payload X") && d.ends_with("from the leader")) || d.starts_with("new-view[") && d.contains("from the leader") || d == "view timer fires")
+        .collect()
 }
